@@ -551,7 +551,12 @@ func (a *adversary) actEvidence(n *node, view *lib.View) {
 	var ds []*lib.DoubleSigner
 	for i := range w.nodes {
 		if c.T.Chance(1, 3) {
-			ds = append(ds, &lib.DoubleSigner{Id: w.nodes[i].pub, Heights: []uint64{evs[0].VoteA.Header.RootHeight}})
+			// the claimed height rotates over the root heights of ALL attached evidence (no extra tape draw): with
+			// evidence against X at one root height and against Y at another, X gets claimed at Y's height
+			ds = append(ds, &lib.DoubleSigner{Id: w.nodes[i].pub, Heights: []uint64{evs[i%len(evs)].VoteA.Header.RootHeight}})
+			if len(evs) > 1 && evs[0].VoteA.Header.RootHeight != evs[1].VoteA.Header.RootHeight {
+				c.Probe("slash_list_claims_across_root_heights")
+			}
 		}
 	}
 	blk := n.makeBlock("byz-slash", true)
